@@ -1,14 +1,24 @@
-import AioslskVerif.Model.Dist
+import AioslskVerif.Model.DistSusp
 /-!
 Line protocol for K_C13 (names are numbers, 0 = the logged-in user; connection ids = creation order).
   `new`                 fresh manager                                             → `ok`
   `session`             (re)connect the server connection + SessionInitialized    → status `ok` | `already`
-  `lost`                server connection CLOSED + SessionDestroyed               → `ok` | `no-server`
+  `lost`                server connection CLOSED + SessionDestroyed, then the old server socket lets go of the
+                        handlers suspended in it                                  → `ok` | `no-server` | `busy`
   `pp n…`               PotentialParents, every entry reachable (one requested connection each)
   `in n`                incoming distributed connection of user n
-  `level c v` `root c n` `close c`                                                → `ok` | `no-conn`
-  `minspeed v` `ratio v` `stats n speed` `reset`                                  → `ok` | `no-server`
+  `level c v` `root c n` `close c`                                                → `ok` | `no-conn` | `busy`
+  `minspeed v` `ratio v` `stats n speed` `reset`                                  → `ok` | `no-server` | `busy`
+  `sblock`              the server socket stops draining (`XOp.srvBlock`)         → `ok` | `no-server`
+  `srelease`            it drains again (`XOp.srvRelease`)                        → `ok` | `no-gate`
+  `arm c`               the socket of connection c is dead, the next write fails  → `ok` | `no-conn`
+  `cblock c` `crelease c`  the socket of connection c stops / resumes draining    → `ok` | `no-conn`
 Every op line answers `<status> <state>`; the state rendering must match `props/c13.py:_canon_line`.
+
+`busy`: the events of one connection (and of the server) are handled one after the other by that connection's reader
+task. While a handler it started is suspended in a send to the server, the source delivers nothing: the harness does
+not issue such an op (it sees that the reader is not waiting for data), the driver answers `busy` in the same
+situations — a handler is suspended exactly when it wrote to the server while the server socket did not drain.
 -/
 open AioslskVerif.Dist
 
@@ -29,26 +39,53 @@ def render (s : DState) : String :=
 
 def nats (ws : List String) : Option (List Nat) := ws.mapM String.toNat?
 
-def withServer (s : DState) (ops : List Op) : DState × String :=
-  if s.session.isSome then (ops.foldl step s, "ok") else (s, "no-server")
+structure Drv where
+  x : XState := XState.init
+  /-- the server connection's reader is inside a suspended handler -/
+  busySrv : Bool := false
+  /-- distributed connections whose reader is inside a suspended handler -/
+  busy : List ConnId := []
 
-def withConn (s : DState) (c : Nat) (op : Op) : DState × String :=
-  if c ∈ s.live then (step s op, "ok") else (s, "no-conn")
+/-- did the handler(s) just run get suspended? (they wrote to the server while its socket does not drain) -/
+def suspended (x x' : XState) : Bool := x.srvBlocked && decide (x'.d.serverFrames > x.d.serverFrames)
 
-def handle (s : DState) (line : String) : DState × String :=
+def withServer (s : Drv) (ops : List Op) : Drv × String :=
+  if s.x.d.session.isNone then (s, "no-server")
+  else if s.busySrv then (s, "busy")
+  else
+    let x' := ops.foldl (fun x op => xstep x (.base op)) s.x
+    ({ s with x := x', busySrv := suspended s.x x' }, "ok")
+
+def aliveB (x : XState) (c : Nat) : Bool := decide (c ∈ x.d.live ∧ c ∉ x.closing)
+
+def withConn (s : Drv) (c : Nat) (op : Op) : Drv × String :=
+  if !aliveB s.x c then (s, "no-conn")
+  else if c ∈ s.busy then (s, "busy")
+  else
+    let x' := xstep s.x (.base op)
+    ({ s with x := x', busy := if suspended s.x x' then c :: s.busy else s.busy }, "ok")
+
+def onConn (s : Drv) (c : Nat) (op : XOp) : Drv × String :=
+  if aliveB s.x c then ({ s with x := xstep s.x op }, "ok") else (s, "no-conn")
+
+def handle (s : Drv) (line : String) : Drv × String :=
   match (line.splitOn " ").filter (· ≠ "") with
-  | ["new"] => (init, "new")
+  | ["new"] => ({}, "new")
   | ["session"] =>
-    if s.session.isSome then (s, "already")
-    else ([Op.serverStateChange, Op.sessionInit 0].foldl step s, "ok")
-  | ["lost"] => withServer s [.serverStateChange, .sessionDestroyed]
+    if s.x.d.session.isSome then (s, "already")
+    else ({ s with x := [Op.serverStateChange, Op.sessionInit 0].foldl (fun x op => xstep x (.base op)) s.x }, "ok")
+  | ["lost"] =>
+    if s.x.d.session.isNone then (s, "no-server")
+    else if s.busySrv then (s, "busy")
+    else
+      ({ x := [XOp.base .serverStateChange, .base .sessionDestroyed, .srvRelease].foldl xstep s.x }, "ok")
   | "pp" :: ws =>
     match nats ws with
     | some ns => withServer s (Op.potentialParents ns :: ns.map (fun n => Op.initialized n true))
     | none => (s, "bad-op")
   | ["in", n] =>
     match n.toNat? with
-    | some n => (step s (.initialized n false), "ok")
+    | some n => ({ s with x := xstep s.x (.base (.initialized n false)) }, "ok")
     | none => (s, "bad-op")
   | ["level", c, v] =>
     match c.toNat?, v.toNat? with
@@ -75,14 +112,30 @@ def handle (s : DState) (line : String) : DState × String :=
     | some n, some v => withServer s [.userStats n v]
     | _, _ => (s, "bad-op")
   | ["reset"] => withServer s [.resetDistributed]
+  | ["sblock"] =>
+    if s.x.d.session.isNone then (s, "no-server") else ({ s with x := xstep s.x .srvBlock }, "ok")
+  | ["srelease"] =>
+    if s.x.srvBlocked then ({ x := xstep s.x .srvRelease }, "ok") else (s, "no-gate")
+  | ["arm", c] =>
+    match c.toNat? with
+    | some c => onConn s c (.arm c)
+    | none => (s, "bad-op")
+  | ["cblock", c] =>
+    match c.toNat? with
+    | some c => onConn s c (.childBlock c)
+    | none => (s, "bad-op")
+  | ["crelease", c] =>
+    match c.toNat? with
+    | some c => onConn s c (.childRelease c)
+    | none => (s, "bad-op")
   | _ => (s, "bad-op")
 
-partial def loop (h : IO.FS.Stream) (s : DState) : IO Unit := do
+partial def loop (h : IO.FS.Stream) (s : Drv) : IO Unit := do
   let line ← h.getLine
   if line.isEmpty then return ()
   let (s', st) := handle s line.trimAscii.toString
-  if st == "new" then IO.println "ok" else IO.println s!"{st} {render s'}"
+  if st == "new" then IO.println "ok" else IO.println s!"{st} {render s'.x.d}"
   loop h s'
 
 def main : IO Unit := do
-  loop (← IO.getStdin) init
+  loop (← IO.getStdin) {}
